@@ -153,6 +153,7 @@ type Exec struct {
 	keep     [][]eventlogger.NodeID
 	ninst    int
 	sends    int
+	Stopped *time.Time // the instant the Broker's clock was last stopped at (StopTimeAt), nil = running
 	// NewNode lets a test customise instances (re-entrant nodes etc.).
 	NewNode func(op Op, n *nodes.N)
 }
@@ -235,6 +236,7 @@ func (x *Exec) Apply(op Op) Result {
 		}
 		if b, err := eventlogger.NewBroker(opts...); err == nil {
 			x.B = b
+			x.Stopped = nil
 		}
 	case "regnode":
 		x.ninst++
@@ -318,6 +320,8 @@ func (x *Exec) Apply(op Op) Result {
 	case "stoptime":
 		if op.V >= 0 && op.V < len(StopTimes) {
 			x.B.StopTimeAt(StopTimes[op.V])
+			t := StopTimes[op.V]
+			x.Stopped = &t
 		}
 	}
 	return r
